@@ -48,7 +48,8 @@ fn pki() -> Pki {
     };
     let server = entity(ExtendedKeyUsagePurpose::ServerAuth);
     let client = entity(ExtendedKeyUsagePurpose::ClientAuth);
-    let dir = std::env::temp_dir().join(format!("vx-witness-e2e-{}", std::process::id()));
+    // throw-away certificates, next to the program's working copy (removed at exit)
+    let dir = std::env::current_dir().unwrap_or_else(|_| std::env::temp_dir()).join(format!("certs-{}", std::process::id()));
     std::fs::create_dir_all(&dir).unwrap();
     let ca_der = ca.serialize_der().unwrap();
     let w = |n: &str, b: &[u8]| std::fs::write(dir.join(n), b).unwrap();
